@@ -412,6 +412,11 @@ m("remote-tag-pushes-unverified-body", ["C13"],
 		return err
 	}
 	return s.push(ctx, desc, bytes.NewReader(manifest), ref.Reference)""", """	return s.push(ctx, desc, rc, ref.Reference)"""))
+m("cred-delete-keeps-cache-change-on-failed-save", ["C18"],
+  ("registry/remote/credentials/internal/config/config.go", """		// the entry is still in the file: a repeated Delete must try again
+		cfg.authsCache[serverAddress] = old
+		return err""", """		_ = old
+		return err"""))
 # ---- auth / retry (C16, C17) ----
 m("auth-cache-key-without-host", ["C16"],
   ("registry/remote/auth/cache.go", """	entry, ok := cc.cache.Load(registry)
